@@ -59,6 +59,12 @@
   file): bitcask_put_crash_invariant, bitcask_put_crash_safe, bitcask_idle_keys_readable,
   bitcask_redelivery_completes (full, single data file < 2 GiB); bitcask_append_refuted (variant O_APPEND).
 
+  What start-up REDELIVERS (model `LemoModel.Wal.redeliver` / `qRestart` / `recoverBy`), theorems in
+  LemoProofs/C08Redeliver.lean (imports this file): recovery_redelivers_every_unwritten_record (full: every record of
+  tmp.data is handed to the writer again, in order, whatever the position index holds for its key — last acknowledged
+  value wins), restart_keeps_queue_invariant (full); recovery_skip_indexed_refuted, recover_skip_indexed_refuted
+  (variant seed-C08h: a record whose key is indexed is skipped — two-record witness).
+
   NOT covered by any theorem (oracles only, see props/C08.json `partial`): ancestors by hash/height, contract code,
   trie nodes, candidate top; engine-level restart equivalence (InsertBlock of a restarted vs a continuous node).
 -/
